@@ -126,6 +126,10 @@ def cases(tier, seed):
     for (m, n) in ((9, 7), (7, 9), (12, 12), (17, 5), (5, 17), (65, 3), (3, 65), (1, 9), (9, 1)):
         out.append({"key": f"large/{m}x{n}", "kind": "layout", "m": m, "n": n, "cls": "generic", "row": 0, "lay": "C"})
         out.append({"key": f"large-zero-col/{m}x{n}", "kind": "scaled", "m": m, "n": n, "cls": "ints", "row": 0, "e": 0, "zc": min(2, n - 1)})
+    # moderately large tall / square shapes with exactly-zero columns at several positions (n >= 17: sort / permutation code paths)
+    for (m, n) in ((20, 17), (33, 33), (40, 25), (18, 18), (64, 20)):
+        for zcs in ((0,), (2,), (n // 2,), (1, n // 2), (0, 5, n - 2)):
+            out.append({"key": f"large-zero-cols/{m}x{n}/z={'-'.join(map(str, zcs))}", "kind": "scaled", "m": m, "n": n, "cls": "generic", "row": 0, "e": 0, "zcs": list(zcs)})
     for (m, n) in ((8, 2), (9, 2), (12, 3), (16, 4), (40, 4), (17, 4), (4, 16), (5, 2), (7, 3), (9, 4), (6, 2), (10, 3)):
         for nm in ("nearcol", "negzero_col", "halfdep_top", "halfdep_bot", "twodeps", "depcol1", "allneg", "nearreal", "equalmod"):
             out.append({"key": f"xf/{m}x{n}/{nm}", "kind": "xf", "m": m, "n": n, "cls": "generic", "row": 0, "xf": nm})
@@ -163,6 +167,8 @@ def run_case(case, seed):
         A = np.ldexp(base_matrix(case["cls"], m, n, fill), case["e"])
         if "zc" in case:
             A[:, case["zc"]] = 0.0
+        for zc_ in case.get("zcs", ()):
+            A[:, zc_] = 0.0
     else:
         A = base_matrix(case["cls"], m, n, fill)
         if case["kind"] == "mask":
